@@ -83,5 +83,15 @@ PROPS["C16"] = {
     "assumptions": [], "outside": "",
 }
 
+PROPS["C09"] = {
+    "programs": {"quick": [P("data", "VerifDecodeFieldOrder", nopt=1, unk=0),
+                           P("data", "VerifDecodeBlockSizes", must_reach=("end","packed","unpacked","interleaved"), maxbs=2, lens=2, unkkinds=0),
+                           P("data", "VerifDecodeRequired"),
+                           P("data", "VerifDecodeTime", lens=2), P("data", "VerifDecodeMetadata", lens=2),
+                           P("data", "VerifEncodeReference", nopt=1, maxbs=1)]},
+    "bounds": {"quick": "type + 1 optional field (each of the 6) in both orders, varint lengths {1,2,10}; blocksizes 0..2 unpacked/packed/interleaved; timestamp/metadata decoders with one unknown field; encode->reference decode with 1 optional field, 0..1 blocksizes, value magnitude classes {1,2,5,10} bytes"},
+    "assumptions": [], "outside": "",
+}
+
 NOT_APPLICABLE = {}
 NOTES = "All checks are bounded: every result reads 'holds for all values within the bounds recorded in the evidence file; nothing is claimed outside them'. exit 2 = inconclusive (never a pass)."
